@@ -66,6 +66,18 @@ def universe(tier, seed):
         g = grammar(rule('s', e), *([y_] if 'y' in used else []), *([z_] if 'Z' in used else []))
         items.append({'g': g, 'texts': all_texts(['a', 'b'], 3), 'label': 'retry', 'cfg': {'act': 'failb', 'nameguard': False},
                       'settings': {'nameguard': False}, 'case': {'sem': 'failb'}})
+    # pass-through rules over a rule with named elements, retried at the same position by a later option: the dict AST comes out of
+    # the memo the second time (parse information must not depend on that)
+    from ..absgrammar import opt
+    rb = rule('b', named('v', pat(['a', 'b'], 1, False)))
+    ra = rule('y', call('b'))
+    for body in (alt(seq(call('y'), tok('+')), seq(named('k', call('b')), tok('a'))),
+                 alt(seq(call('y'), tok('+')), seq(call('b'), tok('a'))),
+                 alt(seq(named('j', call('y')), tok('+')), seq(named('k', call('y')), opt(tok('a')))),
+                 seq(opt(seq(call('y'), tok('+'))), named('k', call('b'))),
+                 alt(seq(call('b'), tok('+')), seq(named('k', call('y')), tok('a')), call('b'))):
+        items.append({'g': grammar(rule('s', body), ra, rb), 'texts': all_texts(['a', 'b', '+', ' '], 3), 'label': 'passthrough',
+                      'cfg': {}, 'settings': {}})
     # cuts inside left-recursive rules (pruning must not touch the seeds of a recursion in progress)
     for it in lr_cut_family(tier):
         items.append(it)
@@ -207,6 +219,16 @@ def run(tier):
                 seen.add((c['ebnf'], repr(so.get('v'))))
             if j % 150 == 1 and t == 6:
                 ck.sample({'grammar': c['ebnf'], 'text': c['texts'][t], 'spec': so, 'impl': res})
+            # parse information under every memo configuration: the same entries (rule, start, end) on the same ASTs
+            pref = res.get('parseinfo')
+            for name in ('parseinfo-plm-0.01', 'parseinfo-memo-off'):
+                o = res.get(name)
+                if pref and o and pref['k'] == 'ok' and o['k'] == 'ok' and pref.get('pi') != o.get('pi'):
+                    ck.violation({'kind': 'parse', 'inputs': {'grammar': c['ebnf'], 'text': c['texts'][t], 'settings': dict(C04_MATRIX)[name]},
+                                  'expected': {'parseinfo entries with the default memo configuration': pref.get('pi')},
+                                  'observed': {'parseinfo entries': o.get('pi')},
+                                  'why': f'{name}: the parseinfo entries of the result differ from those under the default memo configuration',
+                                  'spec': 'C04: all configurations agree (parse information included)'}, key=c['ebnf'] + name + 'pi')
             for name, o in res.items():
                 why = None
                 if o['k'] != ref['k']:
